@@ -127,11 +127,11 @@ func checkC19(c *Ctx) {
 					idx = k
 				}
 			}
-			acqs = append(acqs, acq{fn, callee.String(), idx})
+			acqs = append(acqs, acq{fn, FStr(callee), idx})
 		}
 	}
 	for _, a := range acqs {
-		name := a.fn.String()
+		name := FStr(a.fn)
 		n := 0
 		for _, cl := range Calls(a.fn) {
 			call, ok := cl.(*ssa.Call)
@@ -186,7 +186,7 @@ func checkC19(c *Ctx) {
 	// open: by path exploration (two destinations): every sink that was opened is recorded for closing; a failure
 	// anywhere closes everything recorded before the error is returned; success hands out the closer of the same list
 	{
-		name := open.String()
+		name := FStr(open)
 		// functions that close every element of a list of closers
 		closeAll := map[*ssa.Function]bool{}
 		c.EachRootFunc(func(f *ssa.Function) {
@@ -196,7 +196,7 @@ func checkC19(c *Ctx) {
 			for _, g := range WithClosures(f) {
 				for _, cl := range Calls(g) {
 					cm := cl.Common()
-					if IsCallTo(cl, "(io.Closer).Close") || (cm.IsInvoke() && cm.Method.Name() == "Close" && len(cm.Args) == 0) {
+					if IsCallTo(cl, "(io.Closer).Close") || (cm.IsInvoke() && FNm(cm.Method) == "Close" && len(cm.Args) == 0) {
 						if ok, _, _ := LoopVisitsAll(g, cl); ok {
 							closeAll[g] = true
 						}
@@ -330,7 +330,7 @@ func checkC19(c *Ctx) {
 			seqs, trunc := ConcPaths(open, ConcCfg{
 				MaxIter: 2, Cut: &cut,
 				Inline: func(h *ssa.Function) bool {
-					return !closeAll[h] && h.String() != "(*go.uber.org/zap.sinkRegistry).newSink"
+					return !closeAll[h] && FStr(h) != "(*go.uber.org/zap.sinkRegistry).newSink"
 				},
 				Event: func(in ssa.Instruction, st *ConcState) string {
 					switch x := in.(type) {
@@ -463,7 +463,7 @@ func checkC19(c *Ctx) {
 					cc, _ := ex.Tuple.(*ssa.Call)
 					okc = cc != nil && cc.Call.StaticCallee() == open
 				}
-				c.Check(okc, "R19.1", Open.String(), "returns-closer#"+itoa(k+1), r.Pos(), "success return hands the caller open's closer unchanged (%s)", Desc(rv[1]))
+				c.Check(okc, "R19.1", FStr(Open), "returns-closer#"+itoa(k+1), r.Pos(), "success return hands the caller open's closer unchanged (%s)", Desc(rv[1]))
 			}
 		}
 	}
@@ -483,7 +483,7 @@ func checkC19(c *Ctx) {
 			saves = saves || IsCallTo(cl, "log.Flags")
 		}
 		// (the function that puts the old settings back sets the output too; it reads nothing)
-		if sets && saves && (red == nil || f.String() < red.String()) {
+		if sets && saves && (red == nil || FStr(f) < FStr(red)) {
 			red = f
 		}
 	})
@@ -505,7 +505,7 @@ func checkC19(c *Ctx) {
 				w = r
 			}
 			if w != nil {
-				c.Bad("R19.2", name, "no-error-after-helper/"+g.Name(), site.Pos(), "%s can return an error (%s) after %s changed the standard logger; the change is not undone on that path", g.Name(), c.Pos(w.Pos()), red.Name())
+				c.Bad("R19.2", name, "no-error-after-helper/"+FNm(g), site.Pos(), "%s can return an error (%s) after %s changed the standard logger; the change is not undone on that path", FNm(g), c.Pos(w.Pos()), FNm(red))
 			}
 		}
 		setters := map[string]string{"log.SetFlags": "log.Flags", "log.SetPrefix": "log.Prefix", "log.SetOutput": ""}
@@ -533,13 +533,13 @@ func checkC19(c *Ctx) {
 				}
 			}
 			if w != nil {
-				c.Bad("R19.2", name, "no-error-after/"+f.Name(), cl.Pos(), "an error return (%s) is reachable after %s changed the standard logger; the change is not undone on that path", c.Pos(w.Pos()), f.FullName())
+				c.Bad("R19.2", name, "no-error-after/"+FNm(f), cl.Pos(), "an error return (%s) is reachable after %s changed the standard logger; the change is not undone on that path", c.Pos(w.Pos()), f.FullName())
 			} else {
-				c.OK("R19.2", name, "no-error-after/"+f.Name(), cl.Pos(), "no return with a possibly non-nil error is reachable after %s", f.FullName())
+				c.OK("R19.2", name, "no-error-after/"+FNm(f), cl.Pos(), "no return with a possibly non-nil error is reachable after %s", f.FullName())
 			}
 			if getter != "" {
 				g := getCalls[getter]
-				c.Check(g != nil && Dominates(g, cl), "R19.2", name, "saved-before/"+f.Name(), cl.Pos(), "%s() is read before %s overwrites it", getter, f.FullName())
+				c.Check(g != nil && Dominates(g, cl), "R19.2", name, "saved-before/"+FNm(f), cl.Pos(), "%s() is read before %s overwrites it", getter, f.FullName())
 			}
 		}
 		if nset < 3 {
@@ -557,7 +557,7 @@ func checkC19(c *Ctx) {
 				// a method value (saved.restore): look at the method itself; its receiver is the bound value
 				var recvParam *ssa.Parameter
 				var recvVal ssa.Value
-				if strings.HasSuffix(restore.Name(), "$bound") && len(mk.Bindings) == 1 {
+				if strings.HasSuffix(FNm(restore), "$bound") && len(mk.Bindings) == 1 {
 					for _, cl := range Calls(restore) {
 						if sc := StaticCallee(cl); sc != nil && len(sc.Params) > 0 && len(sc.Blocks) > 0 {
 							restore, recvParam, recvVal = sc, sc.Params[0], mk.Bindings[0]
@@ -635,7 +635,7 @@ func checkC19(c *Ctx) {
 					case "log.SetFlags", "log.SetPrefix":
 						bc := source(arg)
 						ok := bc != nil && IsCallTo(bc, setters[f.FullName()])
-						c.Check(ok, "R19.2", name, "restore/"+f.Name(), cl.Pos(), "the restore function calls %s with the value read by %s before the change (arg %s)", f.FullName(), setters[f.FullName()], Desc(arg))
+						c.Check(ok, "R19.2", name, "restore/"+FNm(f), cl.Pos(), "the restore function calls %s with the value read by %s before the change (arg %s)", f.FullName(), setters[f.FullName()], Desc(arg))
 					case "log.SetOutput":
 						c.Check(strings.HasSuffix(Desc(arg), "Stderr"), "R19.2", name, "restore/SetOutput", cl.Pos(), "the restore function resets the output to os.Stderr (arg %s)", Desc(arg))
 					}
@@ -689,11 +689,11 @@ func checkC19(c *Ctx) {
 			pg = site != nil && containsS(AtomStrings(GuardsOfBlock(site.Block())), "!IsAbs("+raw.Name()+")")
 			ok = ok && pg
 		}
-		c.Check(ok, "R19.3", nsk.String(), "absolute-path-verbatim", nsk.Pos(), "a destination that filepath.IsAbs accepts is opened as exactly that path, under that single condition and without URL parsing (escapes, '#', '?' in a file name must not be reinterpreted); guards of the direct open: %v", g)
+		c.Check(ok, "R19.3", FStr(nsk), "absolute-path-verbatim", nsk.Pos(), "a destination that filepath.IsAbs accepts is opened as exactly that path, under that single condition and without URL parsing (escapes, '#', '?' in a file name must not be reinterpreted); guards of the direct open: %v", g)
 	}
 	fu := c.Method(zp, "sinkRegistry", "newFileSinkFromURL")
 	if c.Anchor("R19.3", "zap.sinkRegistry.newFileSinkFromURL", fu != nil) {
-		name := fu.String()
+		name := FStr(fu)
 		n := 0
 		for _, cl := range Calls(fu) {
 			if !IsCallTo(cl, "(*go.uber.org/zap.sinkRegistry).newFileSinkFromPath") {
@@ -736,7 +736,7 @@ func checkC19(c *Ctx) {
 			AllInstrs(fn, func(i ssa.Instruction) {
 				if mu, ok := i.(*ssa.MapUpdate); ok && strings.HasSuffix(Desc(mu.Map), reg) {
 					n++
-					where = append(where, fn.String())
+					where = append(where, FStr(fn))
 				}
 			})
 		})
@@ -769,12 +769,12 @@ func checkC19(c *Ctx) {
 							locked = true
 						}
 					}
-					c.Check(locked, "R19.4", lk.fn.String(), "lookup-locked", l.Pos(), "registry lookup runs with lockset %s", held[i])
+					c.Check(locked, "R19.4", FStr(lk.fn), "lookup-locked", l.Pos(), "registry lookup runs with lockset %s", held[i])
 				}
 			})
 		}
 		if n == 0 {
-			c.Bad("R19.4", lk.fn.String(), "lookup", lk.fn.Pos(), "no lookup of %s found", lk.reg)
+			c.Bad("R19.4", FStr(lk.fn), "lookup", lk.fn.Pos(), "no lookup of %s found", lk.reg)
 		}
 	}
 	// normalizeScheme lower-cases first and returns the lowered value
@@ -819,17 +819,17 @@ func checkC19(c *Ctx) {
 			try(sch, ok)
 		}
 		if evalErr != "" {
-			c.Und("R19.4", ns.String(), "scheme-grammar", ns.Pos(), "cannot evaluate the scheme validator: %s", evalErr)
+			c.Und("R19.4", FStr(ns), "scheme-grammar", ns.Pos(), "cannot evaluate the scheme validator: %s", evalErr)
 		} else {
 			if len(wrong) > 6 {
 				wrong = append(wrong[:6:6], fmt.Sprintf("… %d more", len(wrong)-6))
 			}
-			c.Check(len(wrong) == 0, "R19.4", ns.String(), "scheme-grammar", ns.Pos(), "evaluated on %d scheme strings covering every byte value in first and in later position: accepted exactly when the first byte is an ASCII letter and every other byte an ASCII letter, digit, '+', '-' or '.', and then returned lower-cased: %v", nEval, wrong)
+			c.Check(len(wrong) == 0, "R19.4", FStr(ns), "scheme-grammar", ns.Pos(), "evaluated on %d scheme strings covering every byte value in first and in later position: accepted exactly when the first byte is an ASCII letter and every other byte an ASCII letter, digit, '+', '-' or '.', and then returned lower-cased: %v", nEval, wrong)
 		}
 		for k, r := range Returns(ns) {
 			rv := RetVals(r)
 			if IsNilConst(Strip(rv[1])) {
-				c.Check(Desc(rv[0]) == "ToLower(s)", "R19.4", ns.String(), "returns-lowered#"+itoa(k+1), r.Pos(), "success returns strings.ToLower of the parameter (returns %s)", Desc(rv[0]))
+				c.Check(Desc(rv[0]) == "ToLower(s)", "R19.4", FStr(ns), "returns-lowered#"+itoa(k+1), r.Pos(), "success returns strings.ToLower of the parameter (returns %s)", Desc(rv[0]))
 			}
 		}
 	}
@@ -931,7 +931,7 @@ func checkC19(c *Ctx) {
 				}
 			}
 		}
-		c.Check(!trunc && nLookup > 0 && len(bad) == 0, "R19.5", ne.String(), "time-encoder-validated", ne.Pos(), "on every one of the %d explored paths (helpers inline) the constructor lookup is reached only after TimeKey was found empty or EncodeTime set (offending: %v)", len(seqs), bad)
+		c.Check(!trunc && nLookup > 0 && len(bad) == 0, "R19.5", FStr(ne), "time-encoder-validated", ne.Pos(), "on every one of the %d explored paths (helpers inline) the constructor lookup is reached only after TimeKey was found empty or EncodeTime set (offending: %v)", len(seqs), bad)
 	}
 }
 
@@ -939,7 +939,7 @@ func c19Registry(c *Ctx, fn *ssa.Function, reg, mutex string, guards []string, k
 	if !c.Anchor("R19.4", "register function for "+reg, fn != nil) {
 		return
 	}
-	name := fn.String()
+	name := FStr(fn)
 	normalise := strings.HasPrefix(keyDesc, "normalizeScheme(")
 	var keyParam *ssa.Parameter
 	for _, p := range fn.Params {
@@ -996,7 +996,7 @@ func c19Registry(c *Ctx, fn *ssa.Function, reg, mutex string, guards []string, k
 		if !strings.HasSuffix(strings.TrimPrefix(d, "&"), muSuffix) {
 			return ""
 		}
-		switch sc.String() {
+		switch FStr(sc) {
 		case "(*sync.Mutex).Lock", "(*sync.RWMutex).Lock":
 			return "lock"
 		case "(*sync.RWMutex).RLock":
@@ -1009,7 +1009,7 @@ func c19Registry(c *Ctx, fn *ssa.Function, reg, mutex string, guards []string, k
 	nStores := 0
 	AllInstrs(fn, func(i ssa.Instruction) {})
 	seqs, trunc := ConcPaths(fn, ConcCfg{
-		Inline: func(h *ssa.Function) bool { return h.String() != "go.uber.org/zap.normalizeScheme" },
+		Inline: func(h *ssa.Function) bool { return FStr(h) != "go.uber.org/zap.normalizeScheme" },
 		Event: func(in ssa.Instruction, st *ConcState) string {
 			switch x := in.(type) {
 			case *ssa.Call:
@@ -1252,7 +1252,7 @@ func c19FileOpen(c *Ctx, rule string) {
 	if !c.Anchor(rule, "zap.sinkRegistry.newFileSinkFromPath", fn != nil) {
 		return
 	}
-	name := fn.String()
+	name := FStr(fn)
 	var param *ssa.Parameter
 	for _, p := range fn.Params {
 		if b, ok := p.Type().Underlying().(*types.Basic); ok && b.Kind() == types.String {
